@@ -1,0 +1,68 @@
+//! Verification hooks (cargo feature `verif_hooks`, off by default).
+//!
+//! Add-only instrumentation used by the external model-checking harness:
+//! a per-thread step counter with a budget, a counter of tokenizer requests,
+//! and an optional per-thread yield hook called at every instrumented point.
+//! Nothing here is compiled unless the feature is enabled.
+use std::cell::Cell;
+
+#[derive(Debug, Clone, Copy, PartialEq, Eq)]
+pub enum Point {
+    TokenNext,
+    ParseAst,
+    ParseNumber,
+    ParseLoop,
+    EvalEntry,
+    EvalLoop,
+}
+
+/// Panic payload used when the step budget of the current thread is exceeded.
+#[derive(Debug, Clone, Copy)]
+pub struct BudgetExceeded {
+    pub steps: u64,
+}
+
+thread_local! {
+    static STEPS: Cell<u64> = const { Cell::new(0) };
+    static TOKENS: Cell<u64> = const { Cell::new(0) };
+    static BUDGET: Cell<u64> = const { Cell::new(u64::MAX) };
+    static YIELD_HOOK: Cell<Option<fn(Point)>> = const { Cell::new(None) };
+}
+
+/// Reset the counters of the current thread and install a step budget.
+pub fn reset(budget: u64) {
+    STEPS.with(|c| c.set(0));
+    TOKENS.with(|c| c.set(0));
+    BUDGET.with(|c| c.set(budget));
+}
+
+pub fn steps() -> u64 {
+    STEPS.with(|c| c.get())
+}
+
+pub fn tokens_requested() -> u64 {
+    TOKENS.with(|c| c.get())
+}
+
+pub fn set_yield_hook(hook: Option<fn(Point)>) {
+    YIELD_HOOK.with(|c| c.set(hook));
+}
+
+#[inline]
+pub fn tick(point: Point) {
+    let steps = STEPS.with(|c| {
+        let s = c.get() + 1;
+        c.set(s);
+        s
+    });
+    if point == Point::TokenNext {
+        TOKENS.with(|c| c.set(c.get() + 1));
+    }
+    if steps > BUDGET.with(|c| c.get()) {
+        BUDGET.with(|c| c.set(u64::MAX));
+        std::panic::panic_any(BudgetExceeded { steps });
+    }
+    if let Some(hook) = YIELD_HOOK.with(|c| c.get()) {
+        hook(point);
+    }
+}
